@@ -14,6 +14,7 @@ def aplEval (tag : Nat) : Except String (List Cell → ApplyRes) :=
       | _ => .slice xs)
   | 11 => pure (fun xs => .slice (xs ++ [.int .int 7]))
   | 12 => pure (fun xs => .slice xs.dropLast)
+  | 14 => pure (fun xs => .slice (xs.filter (fun c => !c.isNil)))   -- the non-nil cells: lengths differ between columns
   -- a row validator: an `error` VALUE for rows starting with a negative int (a single value like any other), else the row
   | 13 => pure (fun xs => match xs.headD .nil with
       | .int .int v => if v < 0 then .scalar (unknownCell "*errors.errorString".toUTF8.toList) else .slice xs
